@@ -386,6 +386,38 @@ func (g *Gen) typeRef(s *Scope) *TypeRef {
 
 // addCycle adds typedefs that refer to each other in a ring of one to three.
 func (g *Gen) addCycle(s *Scope) {
+	if s.Parent != nil && g.pick(2) == 0 {
+		// a typedef in an inner scope that names itself while a typedef of the same name
+		// exists further out: the name binds to the nearest definition, which is the typedef
+		// itself, so this is a ring of one and not a derivation from the outer typedef
+		var outer []string
+		for sc := s.Parent; sc != nil; sc = sc.Parent {
+			for _, td := range sc.Typedefs {
+				outer = append(outer, td.Name)
+			}
+		}
+		for _, sm := range s.File.Includes {
+			for _, td := range sm.Body.Typedefs {
+				outer = append(outer, td.Name)
+			}
+		}
+		if len(outer) > 0 {
+			nm := outer[g.pick(len(outer))]
+			for _, td := range s.Typedefs {
+				if td.Name == nm {
+					nm = ""
+				}
+			}
+			if nm != "" {
+				q := nm
+				if g.pick(3) == 0 {
+					q = s.File.Prefix + ":" + nm
+				}
+				s.Typedefs = append(s.Typedefs, &Typedef{Name: nm, Scope: s, Type: &TypeRef{Name: q, Scope: s}})
+				return
+			}
+		}
+	}
 	n := 1 + g.pick(3)
 	var names []string
 	for i := 0; i < n; i++ {
@@ -397,7 +429,7 @@ func (g *Gen) addCycle(s *Scope) {
 }
 
 func (g *Gen) addTypedefs(s *Scope) {
-	if g.TypeErrors && g.pick(60) == 0 {
+	if g.TypeErrors && g.pick(40) == 0 {
 		g.addCycle(s)
 	}
 	for q := g.pick(3); q > 0; q-- {
